@@ -306,8 +306,14 @@ func RunDownload(sw *Swarm, rng *rand.Rand, o DownloadOpts) (tr *Tor, stats map[
 			sw.Act("%s disconnects", r.Name)
 			r.Close()
 			stats["disconnect"]++
-		case x < 80 && len(tr.Remotes) < 10:
+		case x < 78 && len(tr.Remotes) < 10:
 			newRemote()
+		case x < 80 && len(tr.Remotes) < 12:
+			// a peer that is gone before storrent has finished its own opening messages
+			r2 := tr.Connect(RemoteOpts{Fast: rng.IntN(2) == 0, Ext: rng.IntN(2) == 0})
+			r2.Close()
+			sw.Act("%s connected and closed at once", r2.Name)
+			stats["connect-close"]++
 		case x < 83 && o.InjectCommands && r != nil:
 			// a scheduler command that raced with whatever the remote did last: the peer actor must
 			// re-check choke / allowed-fast / advertisement at send time
